@@ -38,7 +38,7 @@ def strategy_case(draw):
     dt = draw(st.sampled_from(gen.DTYPES_ALL))
     source = draw(st.sampled_from(["torch", "numpy"]))
     case = {"family": fam, "dt": dt, "source": source, "seed": draw(gen.SEED),
-            "scale_exp": draw(st.sampled_from([0, 0, 0, -6, -3, 3, 6, -20, 20]))}
+            "scale_exp": draw(st.sampled_from([0, 0, 0, -6, -3, 3, 6, -20, 20, -170, 170]))}
     if fam == "c":
         sp = draw(st.sampled_from(SPECTRA))
         n = len(sp)
@@ -170,8 +170,10 @@ def build_input(case):
                 A = torch.full(shp, 2.0, dtype=wd)
             ub = [1] * (d + 1)
         present = case["present"]
-    if abs(case.get("scale_exp", 0)) == 20 and dt in ("f32", "c64"):
-        case = dict(case, scale_exp=case["scale_exp"] // 5)       # keep float32 data inside its exponent range
+    if abs(case.get("scale_exp", 0)) >= 20 and dt in ("f32", "c64"):
+        # keep float32 data inside its exponent range: 10^+-20 -> 10^+-4, 10^+-170 -> 10^+-25 (squares leave the range)
+        e_ = 4 if abs(case["scale_exp"]) == 20 else 25
+        case = dict(case, scale_exp=e_ if case["scale_exp"] > 0 else -e_)
     if case.get("scale_exp", 0) and fam != "c":
         A = A * (10.0 ** case["scale_exp"])
     A = A.to(DT[dt])            # the actual input, in the input dtype
